@@ -59,6 +59,8 @@ def make_value(desc, child_sum=0):
         return [make_value(x) for x in v]
     if k == "dict":
         return {kk: make_value(x) for kk, x in v}
+    if k == "npscalar":
+        return np.dtype(desc["dtype"]).type(v)
     if k == "nd":
         return np.array(v, dtype=desc["dtype"]).reshape(desc.get("shape", (len(v),)))
     if k == "index":
